@@ -181,12 +181,12 @@ theorem sortCmp_eq_mergeCmp (I : Interp V) (a : SortArg) (h : a.desc = false) :
   simp [sortCmp, sortCmp.go, mergeCmp, h]
   cases I.cmp true a.key x y <;> rfl
 
-/-- Full statement: a single-key `sort` below a fan-in may be copied into the legs and replaced
-    by `Merge{key, order}`.  False of the current code for `-r`, `-nulls first` and a descending
-    key (`not_lift_sort_sound`; recorded defects C07:lift:sort-reverse / -nullsfirst / -desc): the
-    merge compares differently from the sort.  Proved for the flag-free ascending sort: same
-    multiset, both in sort order. -/
-theorem lift_sort_sound_partial (I : Interp V) (a : SortArg) (hd : a.desc = false)
+/-- A plain (flag-free, ascending) single-key `sort` below a fan-in may be copied into the legs
+    and replaced by `Merge{key, asc}`: both plans emit the same multiset in sort order.  This is
+    the only sort `liftCase` lifts (`liftCase_sort_plain`, since 8f641a47c); for `-r`,
+    `-nulls first` or a descending key the merge would compare differently from the sort
+    (`lift_sort_reverse_would_be_unsound`). -/
+theorem lift_sort_sound (I : Interp V) (a : SortArg) (hd : a.desc = false)
     (hc : LawfulCmp (mergeCmp I a.key a.desc)) (legs : List (List V)) (p : List V)
     (hp : p.Perm legs.flatten) :
     let orig := sortSem I [a] false false p
@@ -196,6 +196,15 @@ theorem lift_sort_sound_partial (I : Interp V) (a : SortArg) (hd : a.desc = fals
     funext l; simp only [sortSem, sortCmp_eq_mergeCmp I a hd]
   simp only [hs, sortCmp_eq_mergeCmp I a hd]
   exact sort_legs_sound hc legs p hp
+
+/-- the rewrite lifts a sort only when it is plain: the hypotheses of `lift_sort_sound` are what
+    the code checks. -/
+theorem liftCase_sort_plain (pools : Pools) (par : Op) (ps : Seqs) (f : Option Op) (a : SortArg)
+    (nf rev : Bool) (l : Lifted) (h : liftCase pools par ps f (.sort [a] nf rev) = some l) :
+    a.desc = false ∧ nf = false ∧ rev = false := by
+  simp only [liftCase, lookupTag, liftOps, Op.kind] at h
+  simp (config := {decide := true}) only [List.find?] at h
+  cases hr : rev <;> cases hn : nf <;> cases hd : a.desc <;> simp_all
 
 /-- `liftCase` rewrites exactly the shapes these lemmas speak about (over the regenerated
     `liftOps` table). -/
@@ -209,14 +218,13 @@ theorem liftCase_head_shape (pools : Pools) (ps : Seqs) (n : Nat) (f : Option Op
       some (.fork (ps.appendEach (.head n)), .head n) := by
   simp [liftCase, lookupTag, liftOps, Op.kind, withPaths]
 
-theorem liftCase_sort_shape (pools : Pools) (ps : Seqs) (a : SortArg) (nf rev : Bool) :
-    (liftCase pools (.fork ps) ps Option.none (.sort [a] nf rev)).map (fun l => (l.par, l.op)) =
-      some (.fork (ps.appendEach (.sort [a] nf rev)), .merge a.key a.desc) := by
-  simp [liftCase, lookupTag, liftOps, Op.kind, withPaths]
+theorem liftCase_sort_shape (pools : Pools) (ps : Seqs) (a : SortArg) (hd : a.desc = false) :
+    (liftCase pools (.fork ps) ps Option.none (.sort [a] false false)).map (fun l => (l.par, l.op)) =
+      some (.fork (ps.appendEach (.sort [a] false false)), .merge a.key a.desc) := by
+  simp [liftCase, lookupTag, liftOps, Op.kind, withPaths, hd]
 
-/-- witness for `-r`: legs [3,1] and [2] are sorted descending; merged ascending they give
-    2,3,1. -/
-theorem not_lift_sort_sound :
+/-- why: for `-r`, legs [3,1] and [2] are sorted descending; merged ascending they give 2,3,1. -/
+theorem lift_sort_reverse_would_be_unsound :
     let a : SortArg := ⟨.this ["k"], false⟩
     ¬ SortedBy (sortCmp witI [a] false true)
       (mergeLegs (leOf (mergeCmp witI a.key a.desc)) [[3, 1], [2]]) := by
@@ -307,8 +315,10 @@ def sortFlagsOK (a : SortArg) (nf rev : Bool) : Bool :=
     (`analyzeSortKeys` for a Sort), i.e. the order of `Merge{key, order}` and of a source declared
     with that key.  False for a descending effective order without `-nulls first` and for an
     ascending one with it (`not_sortkey_sort_sound`): the sort operator places nulls last in both
-    directions, the scan/merge order places them first when descending.  This is the root of the
-    recorded lift:sort-* defects.  Proved under `sortFlagsOK`. -/
+    directions, the scan/merge order places them first when descending.  This was the root of the
+    lift:sort-* defects (fixed by 8f641a47c: such a sort is no longer lifted into legs that a merge
+    on the reported order joins); the analysis itself still reports that order.  Proved under
+    `sortFlagsOK`. -/
 theorem sortkey_sort_sound_partial (I : Interp V) (p : Path) (dsc nf rev : Bool)
     (hflags : sortFlagsOK ⟨.this p, dsc⟩ nf rev = true)
     (k : SortKey) (hk : sortKeysOfSort [⟨.this p, dsc⟩] rev = [k])
